@@ -54,6 +54,12 @@ CHECKS = {
  "C18": ("every split of a member sequence into add_field/commit batches (engine decision) vs the one-shot class on symbolic input, decided by z3",
          "the real add_field/start_update/commit/_update_fields (and recompilation) are driven with engine-chosen batch boundaries; layout signature, reader kind, generated source, parse on symbolic bytes (all paths), dump and generated methods are compared with the one-shot class; forward self-reference through a pointer vs its flat equivalent",
          "5"),
+ "C13": ("alias tables with engine-chosen targets; trivia/order variants of definition texts compared by layout and by parse/dump of symbolic bytes (z3)",
+         "(a) the real add_type/resolve/__getattr__ on every alias table over a small name universe (targets are engine decisions: chains, cycles, dangling names, re-declaration); (b) every single trivia insertion at every token boundary and every dependency-respecting order of a 9-text corpus: both texts are loaded by the real parser and the resulting types compared by name table, constants, layout signature and, on symbolic input bytes, parse and dump equality decided by z3. The trivia characters themselves are enumerated, not solver variables (tier 2 of the design was not built)",
+         "5"),
+ "C19": ("pack/unpack/swap over a symbolic integer; hexdump output as a symbolic string vs an independent reference dump (z3)",
+         "pack/unpack/p*/u*/swap* executed on a symbolic value / symbolic bytes for every width and endianness spelling and compared by z3 with two's-complement reference terms (accept iff fits, inverses, double swap); hexdump executed with symbolic data bytes (f-strings rewritten so that the dump is a symbolic string): equality with an independent reference dump and palette-invariance after stripping colour codes decided by z3; dumpstruct on enumerated structures",
+         "5"),
 }
 
 LEVEL_NOTE = ("trusted: CPython 3.12 semantics of the natively executed parts; the call-site rewrite (validated: repository suite passes under it); "
